@@ -540,7 +540,8 @@ class Machine:
         if k == 'bytes':
             return Opaque('bytes', (bytes(c.val),))
         if k == 'float':
-            return Opaque('float', (c.val,))
+            # IEEE value of the literal (z3 floating-point theory)
+            return z3.FPVal(c.val, z3.Float32() if c.ty == 'f32' else z3.Float64())
         if k == 'zst':
             ty = c.ty
             if ty.startswith('{closure@'):
@@ -749,6 +750,20 @@ class Machine:
             if op == 'BitXor':
                 return b_not(i_eq(a, b))
             raise EncoderGap('bool binop %s' % op)
+        if ty in ('f32', 'f64') or z3.is_fp(a) or z3.is_fp(b):
+            rm = z3.RNE()
+            if op == 'Mul':
+                return z3.fpMul(rm, a, b)
+            if op == 'Add':
+                return z3.fpAdd(rm, a, b)
+            if op == 'Sub':
+                return z3.fpSub(rm, a, b)
+            if op == 'Div':
+                return z3.fpDiv(rm, a, b)
+            if op in ('Lt', 'Le', 'Gt', 'Ge', 'Eq', 'Ne'):
+                f = {'Lt': z3.fpLT, 'Le': z3.fpLEQ, 'Gt': z3.fpGT, 'Ge': z3.fpGEQ, 'Eq': z3.fpEQ, 'Ne': z3.fpNEQ}[op]
+                return f(a, b)
+            raise EncoderGap('float binop %s' % op)
         info = int_info(ty)
         if info is None:
             raise EncoderGap('binop %s on type %s' % (op, ty))
